@@ -51,6 +51,11 @@ def main(tier):
         dup = declared_once(text)
         if dup:
             rep.violation(f'c15:declared-twice:{construct}', f'describe() declares {dup} more than once for `{src[-200:]}`', {'cmd': 'describe', 'source': src, 'text': text})
+        for nm in getattr(t, 'shared', []):
+            import re
+            cnt = len(re.findall(r'^type ' + re.escape(nm) + r'\b', text, re.M))
+            if cnt != 1:
+                rep.violation(f'c15:shared-type-declared-{cnt}-times:{construct}', f'describe() declares the shared / recursive type {nm} {cnt} times for `{src[-200:]}`: `{text[-300:]}`', {'cmd': 'describe', 'source': src, 'text': text})
         # the description declares `type CodecRoot<i> = ...` plus the shared / recursive aliases
         root = f'CodecRoot{i}'
         if f'type {root} ' not in text and f'type {root}=' not in text:
